@@ -302,7 +302,7 @@ def observation_suite(ctx):
         keep = ex
     for spec in keep:
         cases.append((2, spec + closing(2), (1, 2), False))
-    for _ in range(220 if ctx.thorough else 70):
+    for _ in range(160 if ctx.thorough else 70):
         n = rng.randint(1, 4)
         spec = obs_spec(rng, n, rng.randint(2, 9)) + closing(n)
         mqs = tuple(sorted(set([rng.randint(1, n), n])))
@@ -461,7 +461,7 @@ def flags_suite(ctx):
     rng = ctx.rng
     bad = corr_bad = mut_bad = 0
     lines, meta = [], []
-    for k in range(160 if ctx.thorough else 60):
+    for k in range(120 if ctx.thorough else 60):
         n = rng.randint(1, 5)
         density = rng.random() < 0.4
         spec = obs_spec(rng, n, rng.randint(1, 10))
@@ -672,3 +672,255 @@ def wide_suite(ctx):
                          hdr + WIDE_PY, broken=["C07_corr_fuse_wide"])
     ctx.ob("C07_corr_fuse_wide", lean_bad == 0 and nwide > 0, "correspondence", f"{lean_bad} disagreements with the Lean model on groups of 6-7 qubits" if lean_bad else ("no wide group generated" if nwide == 0 else ""))
     ctx.ob("C07_search_fuse_wide", bad == 0, "search", f"{bad} failures" if bad else "")
+
+
+# ---------------------------------------------------------------------------
+# noise channels: a refusal is fine, a silently different state (or a lost channel) is not
+
+CHAN_PY = '''import numpy as np
+from qibo import Circuit, gates
+from qibo.backends import NumpyBackend
+nb = NumpyBackend()
+X = np.array([[0, 1], [1, 0]], dtype=complex)
+def channel(name, qs):
+    q = qs[0]
+    if name == "PauliNoiseChannel":
+        return gates.PauliNoiseChannel(q, [("X", 0.1), ("Z", 0.25)])
+    if name == "DepolarizingChannel":
+        return gates.DepolarizingChannel(tuple(qs), 0.3)
+    if name == "UnitaryChannel":
+        return gates.UnitaryChannel([(q,)], [(0.3, X)])
+    if name == "KrausChannel":
+        return gates.KrausChannel((q,), [np.sqrt(0.6) * np.eye(2), np.sqrt(0.4) * X])
+    if name == "AmplitudeDampingChannel":
+        return gates.AmplitudeDampingChannel(q, 0.3)
+    if name == "PhaseDampingChannel":
+        return gates.PhaseDampingChannel(q, 0.35)
+    if name == "ThermalRelaxationChannel":
+        return gates.ThermalRelaxationChannel(q, [1.0, 0.8, 0.3, 0.2])
+    if name == "ResetChannel":
+        return gates.ResetChannel(q, [0.2, 0.15])
+    if name == "ReadoutErrorChannel":
+        return gates.ReadoutErrorChannel(q, np.array([[0.9, 0.1], [0.25, 0.75]]))
+    raise ValueError(name)
+def members(f):
+    out = []
+    for g in f.queue:
+        out += list(g.gates) if isinstance(g, gates.FusedGate) else [g]
+    return out
+'''
+exec(CHAN_PY, _ns)
+channel, members = _ns["channel"], _ns["members"]
+CHANNELS = ["PauliNoiseChannel", "DepolarizingChannel", "UnitaryChannel", "KrausChannel", "AmplitudeDampingChannel",
+            "PhaseDampingChannel", "ThermalRelaxationChannel", "ResetChannel", "ReadoutErrorChannel"]
+
+
+def chan_code(n, base, pos, name, qs):
+    lines = [CHAN_PY, f"c = Circuit({n}, density_matrix=True)"]
+    for i, s in enumerate(base + [None]):
+        if i == pos:
+            lines.append(f"ch = channel({name!r}, {list(qs)})")
+            lines.append("c.add(ch)")
+        if s is not None:
+            lines.append(f"c.add(gates.{s[0]}(*{list(s[1])}" + (f", theta={s[2]}" if len(s) > 2 else "") + "))")
+    return "\n".join(lines) + "\n"
+
+
+def chan_build(n, base, pos, name, qs):
+    from qibo import Circuit, gates
+
+    c = Circuit(n, density_matrix=True)
+    ch = None
+    for i, s in enumerate(base + [None]):
+        if i == pos:
+            ch = channel(name, qs)
+            c.add(ch)
+        if s is not None:
+            c.add(getattr(gates, s[0])(*s[1], **({"theta": s[2]} if len(s) > 2 else {})))
+    return c, ch
+
+
+def channel_suite(ctx):
+    """density-matrix circuits with every channel class at every position, every max_qubits."""
+    from qibo import gates
+
+    B = _B()
+    nb = qgates.np_backend()
+    rng = ctx.rng
+    bad = teq_bad = 0
+    lines, meta = [], []
+    for name in CHANNELS:
+        for _ in range(3 if ctx.thorough else 2):
+            n = rng.randint(1, 3) if name != "DepolarizingChannel" or rng.random() < 0.5 else rng.randint(2, 3)
+            L = rng.randint(2, 5)
+            base = []
+            for _k in range(L):
+                if n >= 2 and rng.random() < 0.45:
+                    base.append((rng.choice(["CNOT", "CZ", "SWAP"]), tuple(rng.sample(range(n), 2))))
+                elif rng.random() < 0.5:
+                    base.append((rng.choice(["H", "X", "S", "T"]), (rng.randrange(n),)))
+                else:
+                    base.append((rng.choice(["RX", "RY", "RZ"]), (rng.randrange(n),), round(rng.uniform(-3, 3), 3)))
+            qs = tuple(rng.sample(range(n), 2 if (name == "DepolarizingChannel" and n >= 2 and rng.random() < 0.6) else 1))
+            d = 2**n
+            a = np.array([[complex(rng.randint(-2, 2), rng.randint(-2, 2)) for _ in range(d)] for _ in range(d)])
+            rho = a @ a.conj().T + np.eye(d)
+            rho = rho / np.trace(rho)
+            for pos in range(L + 1):
+                try:
+                    c, ch = chan_build(n, base, pos, name, qs)
+                    ref = np.asarray(nb.execute_circuit(c, initial_state=rho.copy()).state())
+                except Exception:  # noqa: BLE001
+                    ctx.stat("channel_original_not_executable")
+                    continue
+                hdr = chan_code(n, base, pos, name, qs)
+                for mq in range(1, n + 1):
+                    ctx.case(("channel", name, n, mq, pos, str(base)))
+                    try:
+                        f = c.fuse(max_qubits=mq)
+                    except Exception as e:  # noqa: BLE001  a refusal
+                        ctx.stat(f"channel_fuse_refused_{type(e).__name__}")
+                        continue
+                    mem = members(f)
+                    special = [g for g in c.queue if isinstance(g, (gates.Channel, gates.M, gates.SpecialGate))]
+                    got = [g for g in mem if isinstance(g, (gates.Channel, gates.M, gates.SpecialGate))]
+                    if [id(g) for g in got] != [id(g) for g in special] or sorted(map(id, mem)) != sorted(id(g) for g in c.queue):
+                        bad += 1
+                        ctx.fail("fuse:channel-lost", f"fused queue (max_qubits={mq}) of a density-matrix circuit with a {name} on {list(qs)} at position {pos}: the channels / measurements / callbacks of the input are not all there exactly once and in order ({[type(g).__name__ for g in mem]})",
+                                 hdr + f"f = c.fuse(max_qubits={mq})\nassert sum(1 for g in members(f) if g is ch) == 1 and sorted(map(id, members(f))) == sorted(map(id, c.queue)), [type(g).__name__ for g in members(f)]\n",
+                                 expected=str([type(g).__name__ for g in c.queue]), observed=str([type(g).__name__ for g in mem]), broken=["C07_search_fuse_channels"])
+                        continue
+                    posq = {id(g): i for i, g in enumerate(c.queue)}
+                    flat = [posq[id(g)] for g in mem]
+                    toks = []
+                    for g in c.queue:
+                        kind = 0 if not isinstance(g, (gates.Channel, gates.M, gates.SpecialGate)) else (2 if isinstance(g, gates.SpecialGate) else 1)
+                        q_ = list(g.qubits)
+                        toks.append(f"{kind} {len(q_)} {' '.join(map(str, q_))}")
+                    lines.append(f"TEQ {n} {len(c.queue)} {' '.join(toks)} {len(flat)} {' '.join(map(str, flat))}")
+                    meta.append((name, n, mq, pos, qs, hdr, flat))
+                    try:
+                        out = np.asarray(nb.execute_circuit(f, initial_state=rho.copy()).state())
+                    except Exception as e:  # noqa: BLE001  a refusal
+                        ctx.stat(f"channel_exec_refused_{type(e).__name__}")
+                        continue
+                    ctx.stat("channel_fused_executed")
+                    if not np.allclose(out, ref, atol=1e-10):
+                        bad += 1
+                        ctx.fail("fuse:channel-state", f"fused circuit (max_qubits={mq}) of a density-matrix circuit with a {name} on {list(qs)} at position {pos} ends in a different density matrix",
+                                 hdr + f"rho = np.array({rho.tolist()})\nref = nb.execute_circuit(c, initial_state=rho.copy()).state()\nout = nb.execute_circuit(c.fuse(max_qubits={mq}), initial_state=rho.copy()).state()\nassert np.allclose(out, ref, atol=1e-10)\n",
+                                 broken=["C07_search_fuse_channels"])
+    outs = run_driver(lines, driver=DRV) if lines else []
+    for (name, n, mq, pos, qs, hdr, flat), o in zip(meta, outs):
+        ctx.stat("lean_TEQ_channel")
+        if o != "1":
+            teq_bad += 1
+            ctx.fail("fuse:order:channel", f"flattened fused queue (max_qubits={mq}) of a circuit with a {name} on {list(qs)} at position {pos} is not a reordering of the input that keeps the order of the entries sharing a qubit (a channel is an entry on its qubits): {flat}",
+                     hdr + f"f = c.fuse(max_qubits={mq})\npos = {{id(g): i for i, g in enumerate(c.queue)}}\nflat = [pos[id(g)] for g in members(f)]\n"
+                     "for q in range(c.nqubits):\n    on_q = [i for i in flat if q in c.queue[i].qubits]\n    assert on_q == sorted(on_q), (q, flat)\n",
+                     broken=["C07_corr_fuse_channels_traceeq"])
+    ctx.ob("C07_corr_fuse_channels_traceeq", teq_bad == 0, "correspondence", f"{teq_bad} real fused queues with channels not ~t the input" if teq_bad else "")
+    ctx.ob("C07_search_fuse_channels", bad == 0, "search", f"{bad} failures" if bad else "")
+
+
+# ---------------------------------------------------------------------------
+# operations on the fused circuit that must not silently change its meaning
+
+# genuine defects reported to the lead; until they are repaired in /repo or listed in
+# known_findings.json a finding is only logged (stat `pending_defect_<key>`)
+REPORT_PENDING = True  # both findings repaired in /repo (a42d2c72c, 38a9a3859)
+
+SYM_PY = '''import numpy as np
+from qibo import Circuit, gates
+from qibo.backends import NumpyBackend
+
+class Forced(NumpyBackend):
+    """every draw takes the next entry of the tape (if that outcome is possible)"""
+    def __init__(self, tape):
+        super().__init__(); self.tape = list(tape); self.pos = 0
+    def sample_shots(self, probabilities, nshots):
+        p = np.real(np.asarray(probabilities)).astype(float); p = p / p.sum()
+        k = self.tape[self.pos % len(self.tape)]; self.pos += 1
+        return np.array([k if p[k] > 1e-9 else int(np.argmax(p))] * nshots)
+
+def conditioned(n, q, t, pre, post):
+    c = Circuit(n, density_matrix=True)
+    for name, qs in pre:
+        c.add(getattr(gates, name)(*qs))
+    r = c.add(gates.M(q, collapse=True))
+    c.add(gates.RX(t, theta=np.pi * r.symbols[0]))
+    for name, qs in post:
+        c.add(getattr(gates, name)(*qs))
+    return c
+'''
+exec(SYM_PY, _ns)
+Forced, conditioned = _ns["Forced"], _ns["conditioned"]
+
+
+def pending(ctx, key, what, py, broken):
+    if REPORT_PENDING:
+        ctx.fail(key, what, py, broken=broken)
+        return 1
+    ctx.stat("pending_defect_" + key)
+    return 0
+
+
+def derived_suite(ctx):
+    from qibo import gates
+
+    B = _B()
+    nb = qgates.np_backend()
+    rng = ctx.rng
+    bad = 0
+    seen = set()
+    # (i) fuse().decompose()
+    for _ in range(30 if ctx.thorough else 10):
+        n = rng.randint(2, 4)
+        spec = B.random_spec(rng, n, rng.randint(2, 8), special=False, unitary_only=True, floats=True)
+        c, _cb = B.build(n, spec)
+        mq = rng.randint(1, n)
+        ctx.case(("decompose", n, mq, B.short(spec)))
+        try:  # the decomposition of single gates is C05's matter: compare with c.decompose()
+            ref = np.asarray(nb.execute_circuit(c.decompose()).state())
+        except Exception:  # noqa: BLE001
+            ctx.stat("decompose_original_refused")
+            continue
+        try:
+            out = np.asarray(nb.execute_circuit(c.fuse(max_qubits=mq).decompose()).state())
+        except Exception as e:  # noqa: BLE001  a refusal
+            ctx.stat(f"decompose_refused_{type(e).__name__}")
+            continue
+        if not np.allclose(out, ref, atol=1e-10) and "d" not in seen:
+            seen.add("d")
+            bad += pending(ctx, "fuse:decompose", f"c.fuse(max_qubits={mq}).decompose() of {B.short(spec)} does not act as c.decompose()",
+                           B.code(n, spec) + f"ref = nb.execute_circuit(c.decompose()).state()\nout = nb.execute_circuit(c.fuse(max_qubits={mq}).decompose()).state()\nassert np.allclose(out, ref, atol=1e-10), (out, ref)\n",
+                           ["C07_search_fuse_derived"])
+    # (ii) gates conditioned on a collapsing measurement, executed before AND after fusion
+    names1 = ["H", "X", "Z", "S"]
+    for _ in range(24 if ctx.thorough else 8):
+        n = rng.randint(2, 3)
+        q, t = rng.sample(range(n), 2)
+        pre = [("H", (q,))] + [(rng.choice(names1), (rng.randrange(n),)) for _k in range(rng.randint(0, 2))]
+        post = [(rng.choice(names1), (t,))] + [(rng.choice(names1), (rng.randrange(n),)) for _k in range(rng.randint(0, 2))]
+        a, b = rng.choice([(0, 1), (1, 0)])
+        mq = rng.randint(1, n)
+        ctx.case(("symbolic", n, mq, str(pre), str(post), a))
+        hdr = SYM_PY + f"mk = lambda: conditioned({n}, {q}, {t}, {pre}, {post})\n"
+        try:
+            ref = np.asarray(Forced([b]).execute_circuit(conditioned(n, q, t, pre, post), nshots=1).state())
+            c = conditioned(n, q, t, pre, post)
+            Forced([a]).execute_circuit(c, nshots=1)
+        except Exception:  # noqa: BLE001
+            ctx.stat("symbolic_original_not_executable")
+            continue
+        try:
+            out = np.asarray(Forced([b]).execute_circuit(c.fuse(max_qubits=mq), nshots=1).state())
+        except Exception as e:  # noqa: BLE001  a refusal
+            ctx.stat(f"symbolic_refused_{type(e).__name__}")
+            continue
+        if not np.allclose(out, ref, atol=1e-10) and "s" not in seen:
+            seen.add("s")
+            bad += pending(ctx, "fuse:symbolic-parameters", f"a circuit with RX({t}, theta=pi*outcome of M({q}, collapse=True)) is run once (outcome {a}), fused (max_qubits={mq}) and run with outcome {b}: the fused circuit uses the rotation of the earlier outcome",
+                           hdr + f"ref = Forced([{b}]).execute_circuit(mk(), nshots=1).state()\nc = mk()\nForced([{a}]).execute_circuit(c, nshots=1)\nout = Forced([{b}]).execute_circuit(c.fuse(max_qubits={mq}), nshots=1).state()\nassert np.allclose(out, ref, atol=1e-10)\n",
+                           ["C07_search_fuse_derived"])
+    ctx.ob("C07_search_fuse_derived", bad == 0, "search", f"{bad} failures" if bad else "")
